@@ -20,7 +20,13 @@ pub enum Stream {
     A40e,
     /// S4: seed-derived
     Seeded(u64),
+    /// S5: runs of equal bytes, run lengths cycling 1..=9 and 12, values cycling through
+    /// seven "special" bytes (content-dependent fast paths: padding, NUL, newline, 0xff)
+    Runs,
 }
+
+const RUN_LENS: [u64; 10] = [1, 2, 3, 4, 5, 6, 7, 8, 9, 12];
+const RUN_VALS: [u8; 7] = [0x00, 0xff, 0x41, 0x0a, 0x20, 0x80, 0x7f];
 
 impl Stream {
     #[inline]
@@ -37,6 +43,16 @@ impl Stream {
                 }
             }
             Stream::Seeded(s) => (splitmix64(off ^ s.wrapping_mul(0xD6E8FEB86659FD93)) >> 48) as u8,
+            Stream::Runs => {
+                const PERIOD: u64 = 57;
+                let (cycle, mut pos) = (off / PERIOD, off % PERIOD);
+                let mut r = 0u64;
+                while pos >= RUN_LENS[r as usize] {
+                    pos -= RUN_LENS[r as usize];
+                    r += 1;
+                }
+                RUN_VALS[((cycle * 10 + r) % 7) as usize]
+            }
         }
     }
     pub fn fill(&self, off: u64, out: &mut [u8]) {
@@ -56,6 +72,7 @@ impl Stream {
             Stream::Zeros => "S2-zeros".into(),
             Stream::A40e => "S3-a40e".into(),
             Stream::Seeded(s) => format!("S4-seed{}", s),
+            Stream::Runs => "S5-runs".into(),
         }
     }
     pub fn from_name(n: &str) -> Option<Stream> {
@@ -64,6 +81,7 @@ impl Stream {
             "S1-alpha" => Some(Stream::Alpha),
             "S2-zeros" => Some(Stream::Zeros),
             "S3-a40e" => Some(Stream::A40e),
+            "S5-runs" => Some(Stream::Runs),
             _ => n.strip_prefix("S4-seed").and_then(|s| s.parse().ok()).map(Stream::Seeded),
         }
     }
@@ -74,6 +92,7 @@ impl Stream {
             Stream::Zeros,
             Stream::A40e,
             Stream::Seeded(seed),
+            Stream::Runs,
         ]
     }
 }
